@@ -142,6 +142,22 @@ randomness source whose reads are shorter than a label (the world's short reads 
 generated now, each of the ten fixes has its reversal under `mutants/`, and each reversal is caught
 by the quick tier. Reports that were reproduced but left alone are listed in section 0.
 
+Sweeps and thorough runs (all through `vp run`, from snapshots of committed /verif against /repo's
+HEAD of the time; the worktree of `bin/seeded-sweep2` follows /repo's HEAD). Whole sweeps: after
+the fourteenth wave 182 caught, 1 missed (C10-b); a second one under heavy load (fourteen
+sub-agents, a thorough run and the checks of this session at the same time) 192 caught, 4 missed
+(C04-k, C08-k, C10-b, C10-m - each needs one rare case of its world to be drawn within the budget;
+each led to a change of that world and has been caught with three seeds out of three since) and 14
+entries of C16 that ended in harness trouble (exit 2, never a verdict) under that load and were
+caught when run again. After the last changes, sweeps per property at the final worlds: C05 19/19,
+C06 20/20, C14 20/21 (C14-o missed: its route through `circuit.Parse(path)` needs a circuit with
+a few dozen INV gates; INV-heavy circuits were added and it has been caught with two seeds out of
+two since), C18 19/19, C19 20/20, C20 16/16, and C04, C08, C17 as far as the time allowed (`SWEEPS.txt` in /verif has the raw lines). Thorough tier on the unchanged tree: VERIF_SEED
+77, 2026 (each: 13 held, one false alarm of the C05 oracle, corrected - section 7), 31337 (found
+the `IOArg.Set` defect), 4242 (all 14 held), 777 (the five worlds changed after that: held), 90125
+(C05 C06 C14 C18 C19 after the bug-hunt fixes: held) and 5150 (C04 C08 C14 C20 after the second
+round, as far as the time allowed).
+
 ''' % (ordn[len(waves) - 1].capitalize(), len(rows), len(own), len(missed), len(rows), per_wave, ', '.join(m['name'] for m in notcaught))
 out += '''| change | property | what was changed | needs | clause that fires | missed at first? |
 |---|---|---|---|---|---|
